@@ -21,112 +21,330 @@ class _DS:
         return self.n
 
 
-def _mk(case, rank, init_epoch):
+def _cln(xs):
+    """list nat literal written as binary Z numerals converted inside Coq (a unary `513%nat` costs ~500 parser nodes;
+    this made the `wide` stream two thirds of the run time)"""
+    xs = [int(x) for x in xs]
+    assert all(x >= 0 for x in xs)
+    if not xs:
+        return "(@nil nat)"
+    return "(List.map Z.to_nat [" + "; ".join(map(str, xs)) + "]%Z)"
+
+
+def _ds(case):
+    n, kind = case["n"], case.get("ds", "sized")
+    if kind == "list":
+        return list(range(n))
+    if kind == "tds":
+        return torch.utils.data.TensorDataset(torch.arange(n))
+    return _DS(n)
+
+
+class _group:
+    """simulated process-group state: W == 0 -> no (initialised) group, else this process is `rank` of W"""
+
+    def __init__(self, W, rank):
+        d = torch.distributed
+        if W > 0:
+            self.pats = [mock.patch.object(d, "is_available", lambda: True),
+                         mock.patch.object(d, "is_initialized", lambda: True),
+                         mock.patch.object(d, "get_rank", lambda *a, **k: rank),
+                         mock.patch.object(d, "get_world_size", lambda *a, **k: W)]
+        else:
+            self.pats = [mock.patch.object(d, "is_initialized", lambda: False)]
+
+    def __enter__(self):
+        for p in self.pats:
+            p.start()
+
+    def __exit__(self, *a):
+        for p in reversed(self.pats):
+            p.stop()
+
+
+def _mk(case, rank, init_epoch, ds=None, W=None):
+    """construct one sampler while the process group looks like (W, rank). Entry-point variants: positional /
+    keyword / mixed constructor call, defaults omitted where the value is the default, base_seed=None after
+    torch.manual_seed, three kinds of Sized data source."""
     from pydrobert.torch.data import EpochRandomSampler, EpochSequentialSampler
 
-    n, W = case["n"], case["W"]
-    pats = []
-    if W > 0:
-        d = torch.distributed
-        pats = [mock.patch.object(d, "is_available", lambda: True),
-                mock.patch.object(d, "is_initialized", lambda: True),
-                mock.patch.object(d, "get_rank", lambda *a, **k: rank),
-                mock.patch.object(d, "get_world_size", lambda *a, **k: W)]
-    else:
-        d = torch.distributed
-        pats = [mock.patch.object(d, "is_initialized", lambda: False)]
-    for p in pats:
-        p.start()
-    try:
-        if case["kind"] == "random":
-            s = EpochRandomSampler(_DS(n), init_epoch=init_epoch, base_seed=case["seed"],
-                                   on_uneven_distributed=case["mode"])
-        else:
-            s = EpochSequentialSampler(_DS(n), init_epoch=init_epoch, on_uneven_distributed=case["mode"])
-    finally:
-        for p in pats:
-            p.stop()
-    return s
+    W = case["W"] if W is None else W
+    ds = _ds(case) if ds is None else ds
+    ctor, omit = case.get("ctor", "mixed"), case.get("omit_defaults", False)
+    rand = case["kind"] == "random"
+    cls = EpochRandomSampler if rand else EpochSequentialSampler
+    if rand and case["seed"] is None:
+        torch.manual_seed(case["tseed"])
+    with _group(W, rank):
+        if ctor == "pos":
+            args = [ds, init_epoch] + ([case["seed"]] if rand else []) + [case["mode"]]
+            if omit and case["mode"] == "raise":
+                args.pop()
+                if rand and case["seed"] is None:
+                    args.pop()
+                    if init_epoch == 0:
+                        args.pop()
+            return cls(*args)
+        kw = dict(init_epoch=init_epoch, on_uneven_distributed=case["mode"])
+        if rand:
+            kw["base_seed"] = case["seed"]
+        if omit:
+            if init_epoch == 0:
+                del kw["init_epoch"]
+            if case["mode"] == "raise":
+                del kw["on_uneven_distributed"]
+            if rand and case["seed"] is None:
+                del kw["base_seed"]
+        if ctor == "kw":
+            return cls(data_source=ds, **kw)
+        return cls(ds, **kw)
 
 
-def run_impl(case):
-    """Per rank: None (ValueError) or [len, yields for k+1 successive epochs, first yield when
-    constructed directly at epoch e0+k]."""
-    out = []
-    ranks = range(case["W"]) if case["W"] > 0 else [0]
-    for r in ranks:
+def _ints(it):
+    return [int(x) for x in it]
+
+
+def _iterate_one(case, s):
+    k, run = case["k"], case.get("run", "seq")
+    if run == "seq":
+        return [_ints(s) for _ in range(k + 1)]
+    if run == "overlap":
+        # several iterators of one sampler alive at once, consumed interleaved: iterator j must
+        # still deliver epoch e0+j (the order is a function of (seed, epoch), not of call history)
+        return _round_robin([iter(s) for _ in range(k + 1)])
+    # "probe": other epochs are queried (as a length computation would) while one is consumed
+    ys = []
+    for _ in range(k + 1):
+        y = []
+        for i, x in enumerate(iter(s)):
+            y.append(int(x))
+            if i % 2 == 0:
+                list(s.get_samples_for_epoch(case["e0"] + 7 + i))
+                len(s)
+        ys.append(y)
+    return ys
+
+
+def _round_robin(its):
+    ys = [[] for _ in its]
+    live = list(range(len(its)))
+    step = 0
+    while live:
+        j = live[step % len(live)]
         try:
-            s = _mk(case, r, case["e0"])
-            ln = len(s)
-            run = case.get("run", "seq")
-            if run == "seq":
-                ys = [[int(x) for x in s] for _ in range(case["k"] + 1)]
-            elif run == "overlap":
-                # several iterators of one sampler alive at once, consumed interleaved: iterator j must
-                # still deliver epoch e0+j (the order is a function of (seed, epoch), not of call history)
-                its = [iter(s) for _ in range(case["k"] + 1)]
-                ys = [[] for _ in its]
-                live = list(range(len(its)))
-                step = 0
-                while live:
-                    j = live[step % len(live)]
-                    try:
-                        ys[j].append(int(next(its[j])))
-                        step += 1
-                    except StopIteration:
-                        live.remove(j)
-            else:  # "probe": other epochs are queried (as a length computation would) while one is consumed
-                ys = []
-                for _ in range(case["k"] + 1):
-                    it = iter(s)
-                    y = []
-                    for i, x in enumerate(it):
-                        y.append(int(x))
-                        if i % 2 == 0:
-                            list(s.get_samples_for_epoch(case["e0"] + 7 + i))
-                            len(s)
-                    ys.append(y)
-            s2 = _mk(case, r, case["e0"] + case["k"])
-            direct = [int(x) for x in s2]
-            out.append([int(ln), ys, direct])
-        except ValueError:
-            out.append(None)
-        except Exception as e:  # any other exception is not a legal outcome
-            out.append("exc:" + exc_kind(e))
+            ys[j].append(int(next(its[j])))
+            step += 1
+        except StopIteration:
+            live.remove(j)
+    return ys
+
+
+def _consume(case, W, sams, ds):
+    """sams: per rank a sampler / None (ValueError at construction) / 'exc:..'.  Per rank:
+    [len, yields of k+1 successive iterations, first yield of a sampler constructed at epoch e0+k, side observations]"""
+    e0, k = case["e0"], case["k"]
+    out = list(sams)
+    real = [r for r, s in enumerate(sams) if s is not None and not isinstance(s, str)]
+    try:
+        side = {}
+        for r in real:
+            s = sams[r]
+            side[r] = {"len": int(len(s)), "pre_last": _ints(s.get_samples_for_epoch(e0 + k)),
+                       "ignoring": _ints(s.get_samples_for_epoch_ignoring_distributed(e0 + k)),
+                       "base_seed": int(s.base_seed) if case["kind"] == "random" else None}
+        if case.get("xrank") == "interleaved" and case.get("run", "seq") == "seq":
+            # the ranks' samplers live in one process and are advanced in lock step
+            yss = {r: [] for r in real}
+            for _ in range(k + 1):
+                for r, y in zip(real, _round_robin([iter(sams[r]) for r in real])):
+                    yss[r].append(y)
+        else:
+            yss = {r: _iterate_one(case, sams[r]) for r in (reversed(real) if case.get("xrank") == "built_first" else real)}
+        for r in real:
+            s = sams[r]
+            sd = side[r]
+            sd["post_first"] = _ints(s.get_samples_for_epoch(e0))
+            sd["epoch_after"] = int(s.epoch)
+            sd["len_after"] = int(len(s))
+            s3 = _mk(case, r, e0, ds, W)          # resume by assigning the public attribute
+            s3.epoch = e0 + k
+            sd["assigned"] = _ints(s3)
+            s2 = _mk(case, r, e0 + k, ds, W)      # resume through the constructor
+            out[r] = [sd.pop("len"), yss[r], _ints(s2), sd]
+    except Exception as e:  # no exception is a legal outcome once the sampler exists
+        for r in real:
+            out[r] = "exc:" + exc_kind(e)
     return out
 
 
-def oracle_orders(case):
+def _build(case, W, ranks, ds):
+    sams = []
+    for r in ranks:
+        try:
+            sams.append(_mk(case, r, case["e0"], ds, W))
+        except ValueError:
+            sams.append(None)
+        except Exception as e:
+            sams.append("exc:" + exc_kind(e))
+    return sams
+
+
+def _run_group(case, W, ds, sams=None):
+    ranks = list(range(W)) if W > 0 else [0]
+    cu = case.get("consume_under")
+    ctx = _group(*cu) if cu else _group(0, 0)
+    if sams is None and case.get("xrank", "serial") == "serial":
+        out = []
+        for r in ranks:
+            s = _build(case, W, [r], ds)
+            with ctx:
+                out += _consume_at(case, W, r, s, ds)
+        return out
+    if sams is None:
+        sams = _build(case, W, ranks, ds)
+    with ctx:
+        return _consume(case, W, sams, ds)
+
+
+def _consume_at(case, W, r, s, ds):
+    # one rank alone: pad so that _consume's rank index is r
+    full = [None] * r + s
+    return [_consume(case, W, full, ds)[r]]
+
+
+def sub_cases(case):
+    """a `groups` case is a sequence of process-group states met by ONE process; each state is judged like a plain case"""
+    if "groups" not in case:
+        return [case]
+    subs = []
+    for g in case["groups"]:
+        c = {key: v for key, v in case.items() if key != "groups"}
+        c["W"] = g
+        subs.append(c)
+    return subs
+
+
+def run_impl(case):
+    """Plain case: per rank None (ValueError) / 'exc:..' / [len, yields for k+1 successive epochs, first yield when
+    constructed directly at epoch e0+k, side observations].  `groups` case: the list of that, one per group state: the
+    samplers of every state (all ranks) are built first, one state after the other, on one shared data source, and
+    only then consumed (reverse order when consume_order=rev)."""
+    ds = _ds(case) if case.get("share_ds", True) else None
+    if "groups" not in case:
+        return _run_group(case, case["W"], ds)
+    subs = sub_cases(case)
+    built = [_build(c, c["W"], list(range(c["W"])) if c["W"] > 0 else [0], ds) for c in subs]
+    order = list(range(len(subs)))
+    if case.get("consume_order") == "rev":
+        order.reverse()
+    outs = [None] * len(subs)
+    for i in order:
+        outs[i] = _run_group(subs[i], subs[i]["W"], ds, built[i])
+    return outs
+
+
+def _seed_of(case, out):
+    if case["kind"] != "random" or case["seed"] is not None:
+        return case["seed"]
+    for o in out:
+        if isinstance(o, list):
+            return o[3]["base_seed"]
+    return 0
+
+
+def oracle_orders(case, out=()):
     n = case["n"]
+    seed = _seed_of(case, out)
     res = []
     for e in range(case["e0"], case["e0"] + case["k"] + 1):
         if case["kind"] == "random":
-            res.append([int(x) for x in np.random.RandomState((case["seed"], e)).permutation(n)])
+            res.append([int(x) for x in np.random.RandomState((seed, e)).permutation(n)])
         else:
             res.append(list(range(n)))
     return res
 
 
+def _bad(out):
+    """an illegal exception, or a negative index (cannot be written as a nat)"""
+    for o in out:
+        if isinstance(o, str):
+            return True
+        if o is not None and any(x < 0 for y in o[1] + [o[2]] for x in y):
+            return True
+    return False
+
+
+def side_failures(case, out, orders=None):
+    """Observations judged in Python.  `rel`: relations the property states (an epoch's samples are the same
+    whether queried before / after iterating, reached by iterating, by assigning .epoch, or through the constructor;
+    len() does not change).  `mod`: what the model additionally fixes (the undistributed order is the oracle's,
+    .epoch counts the iterations, .base_seed is the seed used and - drawn after the same torch.manual_seed - is the
+    same for every rank)."""
+    orders = orders or oracle_orders(case, out)
+    rel, mod = [], []
+    seeds = set()
+    for r, o in enumerate(out):
+        if not isinstance(o, list):
+            continue
+        sd = o[3]
+        if sd["pre_last"] != o[1][-1]:
+            rel.append(f"rank {r}: get_samples_for_epoch(e0+k) before iterating != the iteration that reached e0+k")
+        if sd["post_first"] != o[1][0]:
+            rel.append(f"rank {r}: get_samples_for_epoch(e0) after iterating != the first iteration")
+        if sd["assigned"] != o[1][-1]:
+            rel.append(f"rank {r}: iterating after sampler.epoch = e0+k != the iteration that reached e0+k")
+        if sd["len_after"] != o[0]:
+            rel.append(f"rank {r}: len() changed by iterating")
+        if sd["ignoring"] != orders[-1]:
+            mod.append(f"rank {r}: get_samples_for_epoch_ignoring_distributed(e0+k) is not the (seed, epoch) permutation")
+        if sd["epoch_after"] != case["e0"] + case["k"] + 1:
+            mod.append(f"rank {r}: .epoch after k+1 iterations is {sd['epoch_after']}")
+        if case["kind"] == "random":
+            seeds.add(sd["base_seed"])
+            if case["seed"] is not None and sd["base_seed"] != case["seed"]:
+                mod.append(f"rank {r}: .base_seed is {sd['base_seed']}")
+            if not 0 <= sd["base_seed"] <= 2**31 - 1:
+                mod.append(f"rank {r}: .base_seed out of range")
+    if len(seeds) > 1:
+        mod.append("ranks drew different base seeds after the same torch.manual_seed")
+    return rel, mod
+
+
 def _rank_out(o):
     if o is None:
         return "None"
-    return co(cp(cn(o[0]), cl([cln(y) for y in o[1]])))
+    return co(cp(cn(o[0]), cl([_cln(y) for y in o[1]])))
+
+
+def _dist(case, r):
+    return co(cp(cn(r), cn(case["W"]))) if case["W"] > 0 else "None"
+
+
+def _plain_term(case, out, fn, with_side):
+    if _bad(out):
+        return "false"
+    oo = oracle_orders(case, out)
+    parts = []
+    for r, o in enumerate(out):
+        parts.append(f"{fn} {cn(case['n'])} {_dist(case, r)} {CMODE[case['mode']]} {cn(case['e0'])} vords {_rank_out(o)}")
+        if o is not None and with_side:
+            parts.append(f"list_eqb {_cln(o[2])} {_cln(o[1][-1])}")
+    if with_side:
+        rel, mod = side_failures(case, out, oo)
+        parts.append(cb(not rel and not mod))
+    elif case["kind"] == "sequential":
+        parts.append(f"src_seq_order_check {cn(case['n'])}")
+    return f"(let vords := {cl([_cln(o) for o in oo])} in " + " && ".join(parts) + ")"
 
 
 def model_term(case, out):
-    """bool: every rank's output equals the model's, and starting at epoch e0+k gives the
-    last of the iterated yields."""
-    if any(isinstance(o, str) for o in out):
-        return "false"
-    orders = cl([cln(o) for o in oracle_orders(case)])
-    parts = []
-    ranks = range(case["W"]) if case["W"] > 0 else [0]
-    for r, o in zip(ranks, out):
-        dist = co(cp(cn(r), cn(case["W"]))) if case["W"] > 0 else "None"
-        parts.append(f"check {cn(case['n'])} {dist} {CMODE[case['mode']]} {cn(case['e0'])} {orders} {_rank_out(o)}")
-        if o is not None:
-            parts.append(f"list_eqb {cln(o[2])} {cln(o[1][-1])}")
-    return "(" + " && ".join(parts) + ")"
+    """bool: every rank's output equals the model's, starting at epoch e0+k gives the
+    last of the iterated yields, and the side observations hold."""
+    return "(" + " && ".join(_plain_term(c, o, "check", True) for c, o in zip(sub_cases(case), _outs(case, out))) + ")"
+
+
+def _outs(case, out):
+    return out if "groups" in case else [out]
 
 
 IMPORTS_SRC = "From PV Require Import C13.Model C13.SrcRun.\nLocal Open Scope nat_scope.\n"
@@ -135,17 +353,7 @@ IMPORTS_SRC = "From PV Require Import C13.Model C13.SrcRun.\nLocal Open Scope na
 def src_term(case, out):
     """bool: the regenerated source terms (PV.Gen.C13Src), run by PV.MiniPy.Interp inside Coq, give what the
     implementation gave - per rank: ValueError / (len, the k+1 successive iterations)."""
-    if any(isinstance(o, str) for o in out):
-        return "false"
-    orders = cl([cln(o) for o in oracle_orders(case)])
-    parts = []
-    ranks = range(case["W"]) if case["W"] > 0 else [0]
-    for r, o in zip(ranks, out):
-        dist = co(cp(cn(r), cn(case["W"]))) if case["W"] > 0 else "None"
-        parts.append(f"src_check {cn(case['n'])} {dist} {CMODE[case['mode']]} {cn(case['e0'])} {orders} {_rank_out(o)}")
-    if case["kind"] == "sequential":
-        parts.append(f"src_seq_order_check {cn(case['n'])}")
-    return "(" + " && ".join(parts) + ")"
+    return "(" + " && ".join(_plain_term(c, o, "src_check", False) for c, o in zip(sub_cases(case), _outs(case, out))) + ")"
 
 
 def source_tie(chk, cases, outs):
@@ -169,20 +377,40 @@ def source_tie(chk, cases, outs):
                     "theorems_at_stake": ["c13_source_refines_model"]}, no_failing_input=True)
 
 
-def spec_term(case, out):
-    if any(isinstance(o, str) for o in out):
+def _spec_plain(case, out):
+    if _bad(out):
         return "false"
     W = max(case["W"], 1)
     mode = CMODE[case["mode"]] if case["W"] > 0 else "Ignore"
     parts = [f"spec_okb {cn(case['n'])} {cn(W)} {mode} {cn(case['k'] + 1)} {cl([_rank_out(o) for o in out])}"]
     for o in out:
         if o is not None:
-            parts.append(f"list_eqb {cln(o[2])} {cln(o[1][-1])}")
+            parts.append(f"list_eqb {_cln(o[2])} {_cln(o[1][-1])}")
+    parts.append(cb(not side_failures(case, out)[0]))
     return "(" + " && ".join(parts) + ")"
 
 
+def spec_term(case, out):
+    return "(" + " && ".join(_spec_plain(c, o) for c, o in zip(sub_cases(case), _outs(case, out))) + ")"
+
+
 def nontrivial(case):
-    return case["W"] >= 2 and case["n"] >= case["W"]
+    return any(c["W"] >= 2 and c["n"] >= c["W"] for c in sub_cases(case))
+
+
+def _variant(rng, case):
+    """entry-point / optional-state / call-history dimensions, drawn independently of the arithmetic ones"""
+    case["ctor"] = rng.choice(["pos", "kw", "mixed"])
+    case["omit_defaults"] = rng.random() < 0.5
+    case["ds"] = rng.choice(["sized", "list", "tds"])
+    case["xrank"] = rng.choice(["serial", "built_first", "interleaved"])
+    case["share_ds"] = rng.random() < 0.7
+    if rng.random() < 0.4:
+        W2 = rng.choice([0, 1, 2, 3, 5])
+        case["consume_under"] = [W2, rng.randrange(W2) if W2 else 0]
+    if case["kind"] == "random" and rng.random() < 0.15:
+        case["seed"], case["tseed"] = None, rng.choice([0, 1, rng.randint(0, 2**40)])
+    return case
 
 
 def gen_cases(chk):
@@ -204,36 +432,65 @@ def gen_cases(chk):
             cases.append(dict(n=n, W=W, mode=mode, kind="random", e0=n % 3, k=1 + n % 2, seed=n * 11 + W, run=run,
                               stream="history"))
     # index-width boundaries: data sets just around 2^8 (and 2^9) items split over a few ranks
-    for n in ([254, 255, 256, 257, 258, 300, 511, 513] if chk.tier == "thorough" else [255, 257, 300, 513]):
+    for n in [254, 255, 256, 257, 258, 300, 511, 513]:
         for W in (2, 3, 4):
             for mode in ("drop", "uneven") + (("raise",) if n % W == 0 else ()):
                 cases.append(dict(n=n, W=W, mode=mode, kind="random", e0=0, k=0, seed=n + W, stream="wide"))
+    # one process meeting several process-group states in sequence: a sampler built before any group exists, then
+    # every rank of groups of sizes 3, 2, 4, 1 (and other sequences), all built before any is consumed, on one data
+    # source object (a per-process / per-data-source memo of rank or world size mixes the states up)
+    seqs = [[0, 3, 2, 4, 1], [0, 2, 3], [3, 0, 2], [4, 2, 1, 0], [1, 3], [2, 4, 2]]
+    for i, (n, mode, kind) in enumerate(itertools.product([0, 5, 6, 7, 12], MODES, ["random", "sequential"])):
+        cases.append(dict(n=n, groups=seqs[i % len(seqs)], W=0, mode=mode, kind=kind, e0=i % 2, k=i % 2, seed=i,
+                          xrank=["built_first", "interleaved"][i % 2], consume_order=["fwd", "rev"][(i // 2) % 2],
+                          consume_under=[None, [3, 1], [2, 0]][i % 3], ds=["sized", "list", "tds"][i % 3], stream="group-sequence"))
+    for _ in range(300 if chk.tier == "thorough" else 30):
+        groups = [rng.choice([0, 1, 2, 3, 4, 5]) for _ in range(rng.randint(2, 5))]
+        if rng.random() < 0.5:
+            groups[0] = 0
+        c = dict(n=rng.randint(0, 13), groups=groups, W=0, mode=rng.choice(MODES), kind=rng.choice(["random", "sequential"]),
+                 e0=rng.randint(0, 3), k=rng.randint(0, 1), seed=rng.choice([0, 1, rng.randint(0, 2**31 - 1)]),
+                 run=rng.choice(["seq", "seq", "overlap", "probe"]), consume_order=rng.choice(["fwd", "rev"]), stream="group-sequence")
+        _variant(rng, c)
+        c["xrank"] = rng.choice(["built_first", "interleaved"])
+        cases.append(c)
     nrand = 4000 if chk.tier == "thorough" else 500
     for _ in range(nrand):
         W = rng.choice([0, 1, 2, 2, 3, 3, 4, 5, 6, 7, 9])
         n = rng.randint(0, 40)
-        cases.append(dict(n=n, W=W, mode=rng.choice(MODES), kind=rng.choice(["random", "random", "sequential"]),
-                          e0=rng.randint(0, 5), k=rng.randint(0, 3), seed=rng.choice([0, 0, 1, 2**31 - 1, rng.randint(0, 2**31 - 1), rng.randint(0, 2**31 - 1)]),
-                          run=rng.choice(["seq", "seq", "overlap", "probe"]), stream="random"))
+        c = dict(n=n, W=W, mode=rng.choice(MODES), kind=rng.choice(["random", "random", "sequential"]),
+                 e0=rng.choice([0, 1, 2, 3, 4, 5, 255, 256, 1000]), k=rng.randint(0, 3),
+                 seed=rng.choice([0, 0, 1, 2**31 - 1, rng.randint(0, 2**31 - 1), rng.randint(0, 2**31 - 1)]),
+                 run=rng.choice(["seq", "seq", "overlap", "probe"]), stream="random")
+        if rng.random() < 0.6:
+            _variant(rng, c)
+        cases.append(c)
     return cases
 
 
 def big_relation(chk):
-    """Implementation-only search at sizes too large for Coq literals: per-rank lists for N around 2^16 must be
+    """Implementation-only search at sizes too large for Coq literals: per-rank lists for N around 2^15 and 2^16 must be
     pairwise disjoint, cover every index below the effective total, and have the reported lengths."""
-    for n, W, mode in [(65535, 2, "uneven"), (65537, 2, "uneven"), (65537, 3, "drop"), (70001, 4, "uneven"), (131073, 3, "uneven")]:
-        case = dict(n=n, W=W, mode=mode, kind="random", e0=0, k=0, seed=n % 97)
+    for n, W, mode, kind in [(65535, 2, "uneven", "random"), (65537, 2, "uneven", "random"), (65537, 3, "drop", "random"),
+                             (70001, 4, "uneven", "random"), (131073, 3, "uneven", "random"), (32767, 2, "uneven", "random"),
+                             (32768, 1, "raise", "random"), (32769, 2, "drop", "random"), (32768, 0, "raise", "random"),
+                             (65536, 1, "uneven", "sequential"), (65539, 4, "drop", "sequential"), (32770, 3, "uneven", "sequential")]:
+        case = dict(n=n, W=W, mode=mode, kind=kind, e0=0, k=0, seed=n % 97)
         out = run_impl(case)
         eff = n - n % W if mode == "drop" else n
-        allv = [x for o in out for x in o[1][0]]
-        ok = (all(o is not None and not isinstance(o, str) for o in out) and len(allv) == eff and len(set(allv)) == eff
-              and all(0 <= x < n for x in allv) and all(o[0] == len(o[1][0]) for o in out))
+        ok = all(isinstance(o, list) for o in out)
+        allv = [x for o in out for x in o[1][0]] if ok else []
+        rel = side_failures(case, out)[0] if ok else []
+        ok = (ok and len(allv) == eff and len(set(allv)) == eff and not rel
+              and all(0 <= x < n for x in allv) and all(o[0] == len(o[1][0]) and o[2] == o[1][0] for o in out))
         chk.count("big_relation")
         chk.note_case(case, True, "wide-impl-only")
         if not ok:
             chk.report({"case": case, "what": "per-rank index lists are not a partition of the first effective_total positions "
                         "of a permutation (lost / duplicated / out-of-range index) at a large data-set size",
-                        "impl_summary": {"lens": [o[0] if o else None for o in out], "yielded": len(allv), "distinct": len(set(allv)), "max": max(allv) if allv else None}})
+                        "relations_failed": rel,
+                        "impl_summary": {"lens": [o[0] if isinstance(o, list) else o for o in out], "yielded": len(allv),
+                                         "distinct": len(set(allv)), "max": max(allv) if allv else None}})
 
 
 def _fails(chk, case):
@@ -242,6 +499,17 @@ def _fails(chk, case):
 
 
 def _cands(case):
+    if "groups" in case:
+        g = case["groups"]
+        for i in range(len(g)):
+            if len(g) > 1:
+                c = dict(case)
+                c["groups"] = g[:i] + g[i + 1:]
+                yield c
+        if len(g) == 1:
+            c = {k: v for k, v in case.items() if k != "groups"}
+            c["W"] = g[0]
+            yield c
     for key, lo in (("k", 0), ("e0", 0), ("n", 0), ("W", 0)):
         if case[key] > lo:
             c = dict(case)
@@ -251,9 +519,19 @@ def _cands(case):
         c = dict(case)
         c["kind"] = "sequential"
         yield c
-    if case.get("run", "seq") != "seq":
+    for key, dflt in (("run", "seq"), ("xrank", "serial"), ("ctor", "mixed"), ("ds", "sized"), ("omit_defaults", False),
+                      ("consume_under", None), ("share_ds", True)):
+        if case.get(key, dflt) != dflt:
+            c = dict(case)
+            c[key] = dflt
+            yield c
+    if case["kind"] == "random" and case["seed"] is None:
         c = dict(case)
-        c["run"] = "seq"
+        c["seed"] = 1
+        yield c
+    if case["e0"] > 10:
+        c = dict(case)
+        c["e0"] = 3
         yield c
     if case["n"] > 40:
         for n2 in (case["n"] // 2, case["n"] - 10):
@@ -265,9 +543,12 @@ def _cands(case):
 def judge(chk, case, out, model_ok):
     """Called for a case whose implementation output differs from the model."""
     spec_ok = coq_eval_bools(chk.workdir, IMPORTS, [spec_term(case, out)], tag="spec")[0]
+    sides = [side_failures(c, o) for c, o in zip(sub_cases(case), _outs(case, out)) if not _bad(o)]
     rec = {"case": case, "impl": out,
-           "model": coq_eval_print(chk.workdir, IMPORTS, model_show(case)),
+           "model": coq_eval_print(chk.workdir, IMPORTS, model_show(case, out)),
            "spec_accepts_impl": spec_ok,
+           "relations_failed": [x for rel, _ in sides for x in rel],
+           "model_side_observations_failed": [x for _, mod in sides for x in mod],
            "correspondence": "corr:C13:EpochRandomSampler/EpochSequentialSampler",
            "theorems_at_stake": ["c13_len_eq_yielded", "c13_ranks_disjoint", "c13_ranks_cover_count",
                                  "c13_drop_equal_counts", "c13_raise_iff_indivisible",
@@ -279,23 +560,38 @@ def judge(chk, case, out, model_ok):
     return rec, spec_ok
 
 
-def model_show(case):
-    orders = cl([cln(o) for o in oracle_orders(case)])
-    ranks = range(case["W"]) if case["W"] > 0 else [0]
+def model_show(case, out):
     items = []
-    for r in ranks:
-        dist = co(cp(cn(r), cn(case["W"]))) if case["W"] > 0 else "None"
-        items.append(f"run {cn(case['n'])} {dist} {CMODE[case['mode']]} {cn(case['e0'])} {orders}")
+    for c, o in zip(sub_cases(case), _outs(case, out)):
+        orders = cl([_cln(x) for x in oracle_orders(c, o)])
+        ranks = range(c["W"]) if c["W"] > 0 else [0]
+        items.append(cl([f"run {cn(c['n'])} {_dist(c, r)} {CMODE[c['mode']]} {cn(c['e0'])} {orders}" for r in ranks]))
     return cl(items)
+
+
+def _balanced(terms, shard=300):
+    """order in which to hand the terms to coq_eval_bools so that the few long ones (stream wide) are dealt over the
+    shards instead of sitting in one"""
+    S = max(1, -(-len(terms) // shard))
+    by_size = sorted(range(len(terms)), key=lambda i: -len(terms[i]))
+    return [i for j in range(S) for i in by_size[j::S]]
 
 
 def run(chk, cases=None):
     chk.rule = ("case = (n, world size W, mode, sampler kind, base seed, init epoch e0, extra epochs k); every rank of the "
                 "group is constructed under a patched torch.distributed, len() and k+1 successive iterations are recorded, plus "
-                "the first iteration of a sampler constructed at epoch e0+k (run=overlap: k+1 iterators alive and consumed interleaved; run=probe: other epochs and len() queried mid-iteration; stream wide: N around 2^8/2^9, and around 2^16 judged on the implementation alone); compared with PV.C13.Model.run evaluated by "
-                "vm_compute on NumPy's permutation for (seed, epoch). non-trivial = W>=2 and n>=W (the epoch is really split)")
+                "the first iteration of a sampler constructed at epoch e0+k (run=overlap: k+1 iterators alive and consumed interleaved; run=probe: other epochs and len() queried mid-iteration; stream wide: N around 2^8/2^9, and around 2^15/2^16 judged on the implementation alone); compared with PV.C13.Model.run evaluated by "
+                "vm_compute on NumPy's permutation for (seed, epoch). Side observations per rank (get_samples_for_epoch before/after "
+                "iterating, resuming by assigning .epoch, len() after iterating, get_samples_for_epoch_ignoring_distributed, .epoch, "
+                ".base_seed) are judged in Python against the iterations / the oracle. Variants drawn independently: positional / keyword / "
+                "mixed constructor call, defaults omitted, base_seed=None after torch.manual_seed, data source = Sized object / list / "
+                "TensorDataset, ranks consumed serially / after all were built / in lock step, consumption while the process group looks "
+                "different from construction time. Stream group-sequence: one process meets several group states in sequence (none, "
+                "3, 2, 4, 1, ...), every rank of every state built on one shared data source before any is consumed; each state is judged "
+                "like a plain case. non-trivial = W>=2 and n>=W (the epoch is really split)")
     chk.assumptions += ["np.random.RandomState((seed, epoch)).permutation(n) is the order oracle handed to the model",
-                        "torch.distributed is simulated by patching is_available/is_initialized/get_rank/get_world_size"]
+                        "torch.distributed is simulated by patching is_available/is_initialized/get_rank/get_world_size",
+                        "rank and world size are those of construction time (the model's init); later changes of the process group do not re-split a sampler"]
     if cases is None:
         big_relation(chk)
     cases = cases if cases is not None else gen_cases(chk)
@@ -307,10 +603,19 @@ def run(chk, cases=None):
         terms.append(model_term(c, out))
         chk.note_case(c, nontrivial(c), stream)
         chk.count("mode=" + c["mode"])
-        chk.count("W=%d" % c["W"])
-        chk.count("outcome=" + ("raise" if any(o is None for o in out) else "ok"))
+        chk.count("kind=" + c["kind"])
+        chk.count("W=%d" % c["W"] if "groups" not in c else "W=sequence")
+        chk.count("outcome=" + ("raise" if any(o is None for g in _outs(c, out) for o in g) else "ok"))
         chk.count("run=" + c.get("run", "seq"))
-    res = coq_eval_bools(chk.workdir, IMPORTS, terms)
+        for key in ("ctor", "ds", "xrank"):
+            chk.count(f"{key}={c.get(key, 'default')}")
+        chk.count("consume_under=" + ("other-group" if c.get("consume_under") else "none"))
+        chk.count("seed=" + ("None" if c["seed"] is None else "0" if c["seed"] == 0 else "int"))
+    order = _balanced(terms)
+    pres = coq_eval_bools(chk.workdir, IMPORTS, [terms[i] for i in order])
+    res = [True] * len(terms)
+    for i, ok in zip(order, pres):
+        res[i] = ok
     source_tie(chk, cases, outs)
     bad = [i for i, ok in enumerate(res) if not ok]
     chk.extra["model_disagreements"] = len(bad)
